@@ -313,6 +313,9 @@ def run(repo: Repo, chk: Check):
     chk.judge("R04.f", "register_assignment:assign_registers:a scope is ordered only after all scopes it is called from", ok_ord,
               "sorted_scopes.append(scope) is not guarded by called_from[scope] ⊆ already-sorted scopes", None, wa)
     rule_functions_below_modules(repo, chk, "R04.f")
+    chk.rule("R04.h", "when a name is made to stand for another value's register (no copy), the accesses of that name are added to the register's "
+                      "accesses and enter its lifetime: the register is not released while the new name is still read", floor=2)
+    chk.guarded(r04h, repo, chk)
 
 
 def rule_functions_below_modules(repo, chk, R):
@@ -577,3 +580,54 @@ def r04d(repo, chk, t, lf, lcfg, lrd, wl):
                 chk.judge("R04.d", key, src2 is not None and "nodes_reading" in src2 and "nodes_writing" in src2,
                           f"the search for an outer loop ends when all of '{acc_param}' lie inside the loop found, but lifetime passes {src2 or 'nothing (the default: no accesses)'} "
                           f"for it: expected every reading and writing node of the value", {"accesses_argument": src2}, wl)
+
+
+# ---------------------------------------------------------------------- R04.h
+def r04h(repo, chk, R="R04.h"):
+    g = repo.mod("generate_code")
+    t = repo.mod("types")
+    from .shared import GEN_CLASS
+    hs = repo.handlers()
+    fn = g.func(f"{GEN_CLASS}.{hs['Assign']}")
+    chk.saw("generate_code", fn.qual)
+    cfg, rd = fn_ctx(fn)
+    where = f"{g.path}:{fn.lineno} in {fn.qual}"
+    # the store that shares a register: X.code_expr = <V>.code_expr ...
+    shares = []
+    for st in ast.walk(fn):
+        if isinstance(st, ast.Assign) and len(st.targets) == 1 and isinstance(st.targets[0], ast.Attribute) and st.targets[0].attr == "code_expr":
+            recv = norm(st.targets[0].value)
+            srcs = [norm(a.value) for a in ast.walk(st.value) if isinstance(a, ast.Attribute) and a.attr == "code_expr" and norm(a.value) != recv]
+            if srcs:
+                shares.append((st, recv, srcs[0]))
+    if not shares:
+        raise AnalysisError("handle_assign: the store that lets a name share another value's register was not found")
+    lf = t.func("IC10Register.lifetime")
+    ltxt = " ".join(norm(x) for x in ast.walk(lf) if isinstance(x, ast.BinOp))
+    for st, recv, src in shares:
+        # a statement on every path to the store (or right after it) that hands recv's accesses to src
+        attrs = set()
+        for c in ast.walk(fn):
+            if isinstance(c, ast.Call) and isinstance(c.func, ast.Attribute) and c.func.attr in ("extend", "append", "update") and isinstance(c.func.value, ast.Attribute) \
+                    and norm(c.func.value.value) == src and c.args:
+                a = norm(c.args[0])
+                if f"{recv}.nodes_reading" in a and f"{recv}.nodes_writing" in a:
+                    # executed whenever the store is and the shared value is a register: same guards, plus at most 'isinstance(src, IC10Register)'
+                    ids_c, ids_s = live_ids(cfg, c), live_ids(cfg, st)
+                    if not (ids_c and ids_s):
+                        continue
+                    gs = {(norm(t_), p_) for t_, p_ in guard_atoms(cfg, ids_s[0])}
+                    gc = {(norm(t_), p_) for t_, p_ in guard_atoms(cfg, ids_c[0])}
+                    extra = gc - gs
+                    if gs <= gc and all(p_ and t_.startswith(f"isinstance({src}, ") for t_, p_ in extra):
+                        attrs.add(c.func.value.attr)
+        key = f"generate_code:{fn.qual}:accesses of the new name are handed to the shared register"
+        if not attrs:
+            chk.bad(R, key, f"{recv} is made to share the register of {src}, but the reading and writing nodes of {recv} are not added to {src}: the register is released after the "
+                    f"last access of the old name ('y = x; z = ...; y + z': z takes the register and the sum is z + z)", None, f"{g.path}:{st.lineno} in {fn.qual}")
+            continue
+        chk.ok(R, key, {"attributes": sorted(attrs)})
+        used = [a for a in attrs if f"self.{a}" in ltxt]
+        chk.judge(R, "types:IC10Register.lifetime:the handed-over accesses enter the lifetime", bool(used),
+                  f"handle_assign records the accesses of the sharing name in {sorted(attrs)}, but IC10Register.lifetime does not include that list in the accesses it widens",
+                  None, f"{t.path}:{lf.lineno} in IC10Register.lifetime")
